@@ -12,7 +12,13 @@ pub use idna::{a_label_name, punycode};
 pub fn ipv6_text(a: &Ipv6Addr) -> String {
 	let g = a.segments();
 	if g[0] == 0 && g[1] == 0 && g[2] == 0 && g[3] == 0 && g[4] == 0 && g[5] == 0xffff {
-		return format!("::ffff:{}.{}.{}.{}", g[6] >> 8, g[6] & 0xff, g[7] >> 8, g[7] & 0xff);
+		return format!(
+			"::ffff:{}.{}.{}.{}",
+			g[6] >> 8,
+			g[6] & 0xff,
+			g[7] >> 8,
+			g[7] & 0xff
+		);
 	}
 	let (mut best_start, mut best_len) = (0usize, 0usize);
 	let mut i = 0;
@@ -31,10 +37,17 @@ pub fn ipv6_text(a: &Ipv6Addr) -> String {
 		}
 	}
 	if best_len < 2 {
-		return g.iter().map(|x| format!("{:x}", x)).collect::<Vec<_>>().join(":");
+		return g
+			.iter()
+			.map(|x| format!("{:x}", x))
+			.collect::<Vec<_>>()
+			.join(":");
 	}
 	let left: Vec<String> = g[..best_start].iter().map(|x| format!("{:x}", x)).collect();
-	let right: Vec<String> = g[best_start + best_len..].iter().map(|x| format!("{:x}", x)).collect();
+	let right: Vec<String> = g[best_start + best_len..]
+		.iter()
+		.map(|x| format!("{:x}", x))
+		.collect();
 	format!("{}::{}", left.join(":"), right.join(":"))
 }
 
@@ -118,7 +131,10 @@ pub fn selftest() -> Result<(), String> {
 		}
 	}
 	if a_label_name("*.B\u{00DC}CHER.Example.ORG") != "*.xn--bcher-kva.example.org" {
-		return Err(format!("a_label_name: {}", a_label_name("*.B\u{00DC}CHER.Example.ORG")));
+		return Err(format!(
+			"a_label_name: {}",
+			a_label_name("*.B\u{00DC}CHER.Example.ORG")
+		));
 	}
 	// RFC 5952 section 4 examples
 	let v6: &[(&str, &str)] = &[
@@ -127,7 +143,10 @@ pub fn selftest() -> Result<(), String> {
 		("2001:db8:0:1:1:1:1:1", "2001:db8:0:1:1:1:1:1"),
 		("2001:0:0:1:0:0:0:1", "2001:0:0:1::1"),
 		("2001:db8:0:0:1:0:0:1", "2001:db8::1:0:0:1"),
-		("2001:DB8:AAAA:BBBB:CCCC:DDDD:EEEE:0001", "2001:db8:aaaa:bbbb:cccc:dddd:eeee:1"),
+		(
+			"2001:DB8:AAAA:BBBB:CCCC:DDDD:EEEE:0001",
+			"2001:db8:aaaa:bbbb:cccc:dddd:eeee:1",
+		),
 		("::", "::"),
 		("::1", "::1"),
 		("1::", "1::"),
@@ -141,7 +160,9 @@ pub fn selftest() -> Result<(), String> {
 	if reverse_dns("203.0.113.1").as_deref() != Some("1.113.0.203.in-addr.arpa") {
 		return Err("reverse_dns v4".into());
 	}
-	if reverse_dns("2001:db8::1").as_deref() != Some("1.0.0.0.0.0.0.0.0.0.0.0.0.0.0.0.0.0.0.0.0.0.0.0.8.b.d.0.1.0.0.2.ip6.arpa") {
+	if reverse_dns("2001:db8::1").as_deref()
+		!= Some("1.0.0.0.0.0.0.0.0.0.0.0.0.0.0.0.0.0.0.0.0.0.0.0.8.b.d.0.1.0.0.2.ip6.arpa")
+	{
 		return Err("reverse_dns v6".into());
 	}
 	Ok(())
